@@ -1,7 +1,7 @@
 import Hertz.Model.Chain
 /-!
 Lemmas for C12: the chain interpreter keeps the onion monitor happy, never runs out of fuel, and
-wraps its `int8` index only when the work bound says so.
+never panics: the `int8` index saturates at `MaxInt8`.
 -/
 namespace Hertz.Chain
 
@@ -31,179 +31,129 @@ theorem Mon.run_cons (m : Mon) (e : Event) (t : List Event) :
 theorem trunc8_small {n : Nat} (h : n ≤ 127) : trunc8 n = n := by
   unfold trunc8; omega
 
-theorem inc8_lt {j : Int} (h : j ≠ 127) : inc8 j = j + 1 := by
+theorem inc8_lt {j : Int} (h : j < 127) : inc8 j = j + 1 := by
   unfold inc8; simp [h]
 
-theorem work_nil_of_le (hs : List Script) (k : Nat) (h : hs.length ≤ k) : work (hs.drop k) = 0 := by
-  rw [List.drop_eq_nil_of_le h]; rfl
-
-theorem work_drop (hs : List Script) (k : Nat) (sc : Script) (h : hs[k]? = some sc) :
-    work (hs.drop k) = 1 + nexts sc + work (hs.drop (k + 1)) := by
-  have hk : k < hs.length := by
-    rcases Nat.lt_or_ge k hs.length with h1 | h1
-    · exact h1
-    · rw [List.getElem?_eq_none h1] at h; cases h
-  rw [List.drop_eq_getElem_cons hk]
-  have : hs[k] = sc := by
-    rw [List.getElem?_eq_getElem hk] at h; exact Option.some.inj h
-  simp [work, this]
+theorem inc8_sat : inc8 127 = 127 := by decide
 
 /-! ### what a call of the loop / of a handler body guarantees -/
 
-/-- Guarantee of the `Next` loop started with monitor state `m`; `B` bounds the index it can reach. -/
-def PostL (L : Nat) (m : Mon) (B : Int) : R → Prop
+/-- Guarantee of the `Next` loop started with monitor state `m`: it ends normally, past the chain. -/
+def PostL (L : Nat) (m : Mon) : R → Prop
   | (tr, .ok j') => ∃ m', Mon.run m tr = some m' ∧ m'.stack = m.stack ∧ (m'.lo : Int) ≤ j' ∧ m'.lo ≤ L ∧
-      (L : Int) ≤ j' ∧ j' ≤ 127 ∧ j' ≤ B
-  | (_, .error (.panic _)) => 127 < B
+      (L : Int) ≤ j' ∧ j' ≤ 127
   | (_, .error _) => False
 
 /-- Guarantee of (the rest of) a handler body started with index `j`. -/
-def PostA (L : Nat) (m : Mon) (j : Nat) (B : Int) : R → Prop
+def PostA (L : Nat) (m : Mon) (j : Nat) : R → Prop
   | (tr, .ok j') => ∃ m', Mon.run m tr = some m' ∧ m'.stack = m.stack ∧ (m'.lo : Int) ≤ j' + 1 ∧ m'.lo ≤ L ∧
-      (m'.aborted = true → (L : Int) ≤ j') ∧ 0 ≤ j' ∧ j' ≤ 127 ∧ (j' = j ∨ (L : Int) ≤ j') ∧ j' ≤ B
-  | (_, .error (.panic _)) => 127 < B
+      (m'.aborted = true → (L : Int) ≤ j') ∧ 0 ≤ j' ∧ j' ≤ 127 ∧ (j' = j ∨ (L : Int) ≤ j')
   | (_, .error _) => False
 
 /-- what `runActs` needs to know about its `nx` argument -/
 def NxOK (hs : List Script) (pos : Nat) (nx : Int → R) : Prop :=
-  ∀ (j : Nat) (m : Mon) (b : Int), pos ≤ j → j ≤ 127 → m.lo ≤ j + 1 → m.lo ≤ hs.length →
-    (m.aborted = true → hs.length ≤ j) → (j : Int) + 1 ≤ b → 63 ≤ b →
-    PostL hs.length m (b + work (hs.drop (j + 1))) (nx (inc8 j))
+  ∀ (j : Nat) (m : Mon), pos ≤ j → j ≤ 127 → m.lo ≤ j + 1 → m.lo ≤ hs.length →
+    (m.aborted = true → hs.length ≤ j) → PostL hs.length m (nx (inc8 j))
 
 theorem runActs_spec (hs : List Script) (hL : hs.length ≤ 63) (nx : Int → R) (pos : Nat)
     (hpos : pos < hs.length) (hnx : NxOK hs pos nx) :
-    ∀ (acts : List Act) (j : Nat) (m : Mon) (b : Int), pos ≤ j → j ≤ 127 → m.stack.head? = some pos →
-      m.lo ≤ j + 1 → m.lo ≤ hs.length → (m.aborted = true → hs.length ≤ j) → (j : Int) ≤ b → 63 ≤ b →
-      PostA hs.length m j (b + nexts acts + work (hs.drop (j + 1))) (runActs nx pos acts j) := by
+    ∀ (acts : List Act) (j : Nat) (m : Mon), pos ≤ j → j ≤ 127 → m.stack.head? = some pos →
+      m.lo ≤ j + 1 → m.lo ≤ hs.length → (m.aborted = true → hs.length ≤ j) →
+      PostA hs.length m j (runActs nx pos acts j) := by
   intro acts
   induction acts with
   | nil =>
-    intro j m b _ hj _ hlo hloL hab hb _
-    refine ⟨m, rfl, rfl, by omega, hloL, ?_, by omega, by omega, Or.inl rfl, by simp [nexts]; omega⟩
+    intro j m _ hj _ hlo hloL hab
+    refine ⟨m, rfl, rfl, by omega, hloL, ?_, by omega, by omega, Or.inl rfl⟩
     intro h; have := hab h; omega
   | cons a r ih =>
-    intro j m b hpj hj htop hlo hloL hab hb hb63
+    intro j m hpj hj htop hlo hloL hab
     cases a with
     | next =>
-      have h1 := hnx j m (b + 1) hpj hj hlo hloL hab (by omega) (by omega)
+      have h1 := hnx j m hpj hj hlo hloL hab
       simp only [runActs]
       rcases hres : nx (inc8 (j : Int)) with ⟨tr1, res1⟩
       rw [hres] at h1
       cases res1 with
-      | error e =>
-        cases e with
-        | panic i => simp only [PostL] at h1; simp only [R.bind, PostA, nexts]; omega
-        | _ => simp [PostL] at h1
+      | error e => simp [PostL] at h1
       | ok j1 =>
         simp only [PostL] at h1
-        obtain ⟨m1, hrun1, hst1, hlo1, hlo1L, hLj1, hj1, hB1⟩ := h1
+        obtain ⟨m1, hrun1, hst1, hlo1, hlo1L, hLj1, hj1⟩ := h1
         obtain ⟨k1, rfl⟩ : ∃ k1 : Nat, j1 = k1 := ⟨j1.toNat, by omega⟩
-        have h2 := ih k1 m1 (b + 1 + work (hs.drop (j + 1))) (by omega) (by omega) (by rw [hst1]; exact htop)
-          (by omega) hlo1L (by intro _; omega) (by omega) (by omega)
-        have hw0 : work (hs.drop (k1 + 1)) = 0 := work_nil_of_le hs _ (by omega)
-        rw [hw0] at h2
+        have h2 := ih k1 m1 (by omega) (by omega) (by rw [hst1]; exact htop)
+          (by omega) hlo1L (by intro _; omega)
         simp only [R.bind]
         rcases hres2 : runActs nx pos r (k1 : Int) with ⟨tr2, res2⟩
         rw [hres2] at h2
         cases res2 with
-        | error e =>
-          cases e with
-          | panic i => simp only [PostA] at h2; simp only [PostA, nexts]; omega
-          | _ => simp [PostA] at h2
+        | error e => simp [PostA] at h2
         | ok j2 =>
           simp only [PostA] at h2 ⊢
-          obtain ⟨m2, hrun2, hst2, hlo2, hlo2L, hab2, h0j2, hj2, hor2, hB2⟩ := h2
-          refine ⟨m2, ?_, by rw [hst2, hst1], hlo2, hlo2L, hab2, h0j2, hj2, ?_, ?_⟩
+          obtain ⟨m2, hrun2, hst2, hlo2, hlo2L, hab2, h0j2, hj2, hor2⟩ := h2
+          refine ⟨m2, ?_, by rw [hst2, hst1], hlo2, hlo2L, hab2, h0j2, hj2, ?_⟩
           · rw [Mon.run_append, hrun1]; exact hrun2
           · right; rcases hor2 with h | h <;> omega
-          · simp only [nexts]; omega
     | abort =>
       have hstep : m.step (.abort pos) = some ⟨m.stack, m.lo, true⟩ := by simp [Mon.step, htop]
-      have h2 := ih 63 ⟨m.stack, m.lo, true⟩ b (by omega) (by omega) htop (by show m.lo ≤ 63 + 1; omega) hloL
-        (by intro _; exact hL) (by omega) hb63
-      have hw0 : work (hs.drop (63 + 1)) = 0 := work_nil_of_le hs _ (by omega)
-      rw [hw0] at h2
+      have h2 := ih 63 ⟨m.stack, m.lo, true⟩ (by omega) (by omega) htop (by show m.lo ≤ 63 + 1; omega) hloL
+        (by intro _; exact hL)
       simp only [runActs, abortIndex_eq]
       rcases hres2 : runActs nx pos r ((63 : Nat) : Int) with ⟨tr2, res2⟩
       rw [hres2] at h2
       cases res2 with
-      | error e =>
-        cases e with
-        | panic i => simp only [PostA] at h2; simp only [emit, PostA, nexts]; omega
-        | _ => simp [PostA] at h2
+      | error e => simp [PostA] at h2
       | ok j2 =>
         simp only [PostA] at h2
         simp only [emit, PostA]
-        obtain ⟨m2, hrun2, hst2, hlo2, hlo2L, hab2, h0j2, hj2, hor2, hB2⟩ := h2
-        refine ⟨m2, ?_, hst2, hlo2, hlo2L, hab2, h0j2, hj2, ?_, ?_⟩
+        obtain ⟨m2, hrun2, hst2, hlo2, hlo2L, hab2, h0j2, hj2, hor2⟩ := h2
+        refine ⟨m2, ?_, hst2, hlo2, hlo2L, hab2, h0j2, hj2, ?_⟩
         · rw [Mon.run_cons, hstep]; exact hrun2
         · right; rcases hor2 with h | h <;> omega
-        · simp only [nexts]; omega
     | abortStatus c =>
       have hstep : m.step (.abortStatus pos c) = some ⟨m.stack, m.lo, true⟩ := by simp [Mon.step, htop]
-      have h2 := ih 63 ⟨m.stack, m.lo, true⟩ b (by omega) (by omega) htop (by show m.lo ≤ 63 + 1; omega) hloL
-        (by intro _; exact hL) (by omega) hb63
-      have hw0 : work (hs.drop (63 + 1)) = 0 := work_nil_of_le hs _ (by omega)
-      rw [hw0] at h2
+      have h2 := ih 63 ⟨m.stack, m.lo, true⟩ (by omega) (by omega) htop (by show m.lo ≤ 63 + 1; omega) hloL
+        (by intro _; exact hL)
       simp only [runActs, abortIndex_eq]
       rcases hres2 : runActs nx pos r ((63 : Nat) : Int) with ⟨tr2, res2⟩
       rw [hres2] at h2
       cases res2 with
-      | error e =>
-        cases e with
-        | panic i => simp only [PostA] at h2; simp only [emit, PostA, nexts]; omega
-        | _ => simp [PostA] at h2
+      | error e => simp [PostA] at h2
       | ok j2 =>
         simp only [PostA] at h2
         simp only [emit, PostA]
-        obtain ⟨m2, hrun2, hst2, hlo2, hlo2L, hab2, h0j2, hj2, hor2, hB2⟩ := h2
-        refine ⟨m2, ?_, hst2, hlo2, hlo2L, hab2, h0j2, hj2, ?_, ?_⟩
+        obtain ⟨m2, hrun2, hst2, hlo2, hlo2L, hab2, h0j2, hj2, hor2⟩ := h2
+        refine ⟨m2, ?_, hst2, hlo2, hlo2L, hab2, h0j2, hj2, ?_⟩
         · rw [Mon.run_cons, hstep]; exact hrun2
         · right; rcases hor2 with h | h <;> omega
-        · simp only [nexts]; omega
     | probe =>
       have hstep : m.step (.probe pos j) = some m := by simp [Mon.step, htop]
-      have h2 := ih j m b hpj hj htop hlo hloL hab hb hb63
+      have h2 := ih j m hpj hj htop hlo hloL hab
       simp only [runActs]
       rcases hres2 : runActs nx pos r (j : Int) with ⟨tr2, res2⟩
       rw [hres2] at h2
       cases res2 with
-      | error e =>
-        cases e with
-        | panic i => simp only [PostA] at h2; simp only [emit, PostA, nexts]; omega
-        | _ => simp [PostA] at h2
+      | error e => simp [PostA] at h2
       | ok j2 =>
         simp only [PostA] at h2
         simp only [emit, PostA]
-        obtain ⟨m2, hrun2, hst2, hlo2, hlo2L, hab2, h0j2, hj2, hor2, hB2⟩ := h2
-        refine ⟨m2, ?_, hst2, hlo2, hlo2L, hab2, h0j2, hj2, hor2, ?_⟩
-        · rw [Mon.run_cons, hstep]; exact hrun2
-        · simp only [nexts]; omega
+        obtain ⟨m2, hrun2, hst2, hlo2, hlo2L, hab2, h0j2, hj2, hor2⟩ := h2
+        refine ⟨m2, ?_, hst2, hlo2, hlo2L, hab2, h0j2, hj2, hor2⟩
+        rw [Mon.run_cons, hstep]; exact hrun2
 
-theorem PostL_mono {L : Nat} {m : Mon} {B B' : Int} (h : B ≤ B') : ∀ {r : R}, PostL L m B r → PostL L m B' r
-  | (_, .ok _), ⟨m', h1, h2, h3, h4, h5, h6, h7⟩ => ⟨m', h1, h2, h3, h4, h5, h6, by omega⟩
-  | (_, .error (.panic _)), hp => by simp only [PostL] at hp ⊢; omega
-  | (_, .error .fuel), hp => by simp [PostL] at hp
-  | (_, .error .tooMany), hp => by simp [PostL] at hp
-  | (_, .error .noHandlers), hp => by simp [PostL] at hp
-  | (_, .error .duplicate), hp => by simp [PostL] at hp
-  | (_, .error .noGroup), hp => by simp [PostL] at hp
-
-theorem nextLoop_neg (f : Nat) (hs : List Script) (hL : hs.length ≤ 63) :
-    nextLoop (f + 1) hs (-128) = ([], .error (.panic (-128))) := by
-  have ht := trunc8_small (n := hs.length) (by omega)
-  simp only [nextLoop, ht]
-  rw [if_pos (by omega), if_pos (by omega)]
+/-- the saturating increment as a natural number -/
+theorem inc8_nat (j : Nat) (hj : j ≤ 127) : inc8 (j : Int) = ((min (j + 1) 127 : Nat) : Int) := by
+  unfold inc8
+  split <;> omega
 
 theorem loop_spec (hs : List Script) (hL : hs.length ≤ 63) :
-    ∀ (f k : Nat) (m : Mon) (b : Int), k ≤ 127 → m.lo ≤ k → m.lo ≤ hs.length →
-      (m.aborted = true → hs.length ≤ k) → 1 ≤ f → hs.length + 1 ≤ k + f → (k : Int) ≤ b → 63 ≤ b →
-      PostL hs.length m (b + work (hs.drop k)) (nextLoop f hs k) := by
+    ∀ (f k : Nat) (m : Mon), k ≤ 127 → m.lo ≤ k → m.lo ≤ hs.length →
+      (m.aborted = true → hs.length ≤ k) → 1 ≤ f → hs.length + 1 ≤ k + f →
+      PostL hs.length m (nextLoop f hs k) := by
   intro f
   induction f with
-  | zero => intro k m b _ _ _ _ hf; omega
+  | zero => intro k m _ _ _ _ hf; omega
   | succ f ih =>
-    intro k m b hk hlo hloL hab _ hfuel hb hb63
+    intro k m hk hlo hloL hab _ hfuel
     have ht := trunc8_small (n := hs.length) (by omega)
     simp only [nextLoop, ht]
     by_cases hkL : (k : Int) < hs.length
@@ -216,159 +166,86 @@ theorem loop_spec (hs : List Script) (hL : hs.length ≤ 63) :
       have hf1 : 1 ≤ f := by omega
       -- the recursive `Next` available to the handler body
       have hnx : NxOK hs k (nextLoop f hs) := by
-        intro j m0 b0 hpj hj hlo0 hlo0L hab0 hb0 hb063
-        by_cases h127 : j = 127
-        · subst h127
-          obtain ⟨f', rfl⟩ : ∃ f', f = f' + 1 := ⟨f - 1, by omega⟩
-          have : inc8 ((127 : Nat) : Int) = -128 := by decide
-          rw [this, nextLoop_neg f' hs hL]
-          simp only [PostL]
-          have : (0 : Int) ≤ work (hs.drop (127 + 1)) := Int.natCast_nonneg _
-          omega
-        · have : inc8 (j : Int) = ((j + 1 : Nat) : Int) := by
-            rw [inc8_lt (by omega)]; simp
-          rw [this]
-          exact ih (j + 1) m0 b0 (by omega) hlo0 hlo0L (by intro h; have := hab0 h; omega) hf1 (by omega)
-            (by simpa using hb0) hb063
+        intro j m0 hpj hj hlo0 hlo0L hab0
+        rw [inc8_nat j hj]
+        exact ih (min (j + 1) 127) m0 (by omega) (by omega) hlo0L (by intro h; have := hab0 h; omega) hf1 (by omega)
       have hnoab : m.aborted = false := by
         cases hm : m.aborted with
         | false => rfl
         | true => have := hab hm; omega
-      have hw := work_drop hs k hs[k] (List.getElem?_eq_getElem hkL')
-      have hA := runActs_spec hs hL (nextLoop f hs) k hkL' hnx hs[k] k ⟨k :: m.stack, k + 1, m.aborted⟩ b
+      have hA := runActs_spec hs hL (nextLoop f hs) k hkL' hnx hs[k] k ⟨k :: m.stack, k + 1, m.aborted⟩
         (Nat.le_refl _) hk rfl (Nat.le_refl _) (by show k + 1 ≤ hs.length; omega)
-        (by intro h; exact hab h) hb hb63
+        (by intro h; exact hab h)
       have hstepE : m.step (.enter k) = some ⟨k :: m.stack, k + 1, m.aborted⟩ := by
         simp [Mon.step, hnoab, hlo]
       rcases hres1 : runActs (nextLoop f hs) k hs[k] (k : Int) with ⟨tr1, res1⟩
       rw [hres1] at hA
       cases res1 with
-      | error e =>
-        cases e with
-        | panic i => simp only [PostA] at hA; simp only [R.bind, emit, PostL]; omega
-        | _ => simp [PostA] at hA
+      | error e => simp [PostA] at hA
       | ok j1 =>
         simp only [PostA] at hA
-        obtain ⟨m2, hrun2, hst2, hlo2, hlo2L, hab2, h0j1, hj1, hor, hB⟩ := hA
+        obtain ⟨m2, hrun2, hst2, hlo2, hlo2L, hab2, h0j1, hj1, hor⟩ := hA
         obtain ⟨k1, rfl⟩ : ∃ k1 : Nat, j1 = k1 := ⟨j1.toNat, by omega⟩
         have hstepX : m2.step (.exit k k1) = some ⟨m.stack, m2.lo, m2.aborted⟩ := by
           simp [Mon.step, hst2]
         simp only [R.bind, emit]
-        by_cases h127 : k1 = 127
-        · subst h127
-          obtain ⟨f', rfl⟩ : ∃ f', f = f' + 1 := ⟨f - 1, by omega⟩
-          have : inc8 ((127 : Nat) : Int) = -128 := by decide
-          rw [this, nextLoop_neg f' hs hL]
-          simp only [PostL]
-          omega
-        · have hinc : inc8 (k1 : Int) = ((k1 + 1 : Nat) : Int) := by
-            rw [inc8_lt (by omega)]; simp
-          rw [hinc]
-          have hk1 : k < k1 + 1 := by rcases hor with h | h <;> omega
-          have hC : PostL hs.length ⟨m.stack, m2.lo, m2.aborted⟩ (b + work (hs.drop k))
-              (nextLoop f hs ((k1 + 1 : Nat) : Int)) := by
-            rcases hor with h | h
-            · have hk1k : k1 = k := by omega
-              subst hk1k
-              refine PostL_mono (by omega) (ih (k1 + 1) ⟨m.stack, m2.lo, m2.aborted⟩ (b + 1) (by omega)
-                (by show m2.lo ≤ k1 + 1; omega) hlo2L (by intro h; have := hab2 h; omega) hf1 (by omega)
-                (by omega) (by omega))
-            · have hw0 : work (hs.drop (k1 + 1)) = 0 := work_nil_of_le hs _ (by omega)
-              have := ih (k1 + 1) ⟨m.stack, m2.lo, m2.aborted⟩ (b + 1 + nexts hs[k] + work (hs.drop (k + 1)))
-                (by omega) (by show m2.lo ≤ k1 + 1; omega) hlo2L (by intro _; omega) hf1 (by omega)
-                (by omega) (by omega)
-              rw [hw0] at this
-              exact PostL_mono (by omega) this
-          rcases hres3 : nextLoop f hs ((k1 + 1 : Nat) : Int) with ⟨tr3, res3⟩
-          rw [hres3] at hC
-          cases res3 with
-          | error e =>
-            cases e with
-            | panic i => simpa only [PostL] using hC
-            | _ => simp [PostL] at hC
-          | ok j3 =>
-            simp only [PostL] at hC ⊢
-            obtain ⟨m3, hrun3, hst3, hlo3, hlo3L, hLj3, hj3, hB3⟩ := hC
-            refine ⟨m3, ?_, hst3, hlo3, hlo3L, hLj3, hj3, hB3⟩
-            rw [Mon.run_cons, hstepE]
-            show Mon.run _ (tr1 ++ Event.exit k k1 :: tr3) = some m3
-            rw [Mon.run_append, hrun2]
-            show Mon.run m2 (Event.exit k k1 :: tr3) = some m3
-            rw [Mon.run_cons, hstepX]; exact hrun3
+        rw [inc8_nat k1 (by omega)]
+        have hC : PostL hs.length ⟨m.stack, m2.lo, m2.aborted⟩
+            (nextLoop f hs ((min (k1 + 1) 127 : Nat) : Int)) :=
+          ih (min (k1 + 1) 127) ⟨m.stack, m2.lo, m2.aborted⟩ (by omega)
+            (by show m2.lo ≤ min (k1 + 1) 127; omega) hlo2L
+            (by intro h; have := hab2 h; show hs.length ≤ min (k1 + 1) 127; omega) hf1
+            (by rcases hor with h | h <;> omega)
+        rcases hres3 : nextLoop f hs ((min (k1 + 1) 127 : Nat) : Int) with ⟨tr3, res3⟩
+        rw [hres3] at hC
+        cases res3 with
+        | error e => simp [PostL] at hC
+        | ok j3 =>
+          simp only [PostL] at hC ⊢
+          obtain ⟨m3, hrun3, hst3, hlo3, hlo3L, hLj3, hj3⟩ := hC
+          refine ⟨m3, ?_, hst3, hlo3, hlo3L, hLj3, hj3⟩
+          rw [Mon.run_cons, hstepE]
+          show Mon.run _ (tr1 ++ Event.exit k k1 :: tr3) = some m3
+          rw [Mon.run_append, hrun2]
+          show Mon.run m2 (Event.exit k k1 :: tr3) = some m3
+          rw [Mon.run_cons, hstepX]; exact hrun3
     · rw [if_neg hkL]
       simp only [PostL]
-      have : (0 : Int) ≤ work (hs.drop k) := Int.natCast_nonneg _
-      exact ⟨m, rfl, rfl, by omega, hloL, by omega, by omega, by omega⟩
+      exact ⟨m, rfl, rfl, by omega, hloL, by omega, by omega⟩
 
 /-! ### the whole run -/
 
 theorem run_eq (hs : List Script) (hL : hs.length ≤ 63) : run hs = nextLoop (hs.length + 2) hs ((0 : Nat) : Int) := by
   simp [run, next, fuelFor, hL, inc8]
 
-theorem run_spec (hs : List Script) (hL : hs.length ≤ 63) :
-    PostL hs.length Mon.init (63 + work hs) (run hs) := by
+theorem run_spec (hs : List Script) (hL : hs.length ≤ 63) : PostL hs.length Mon.init (run hs) := by
   rw [run_eq hs hL]
-  have := loop_spec hs hL (hs.length + 2) 0 Mon.init 63 (by omega) (Nat.le_refl _) (Nat.zero_le _)
-    (by intro h; cases h) (by omega) (by omega) (by omega) (by omega)
-  simpa using this
+  exact loop_spec hs hL (hs.length + 2) 0 Mon.init (by omega) (Nat.le_refl _) (Nat.zero_le _)
+    (by intro h; cases h) (by omega) (by omega)
 
-theorem run_ok_of_noWrap (hs : List Script) (hL : hs.length ≤ 63) (hw : noWrap hs = true) :
-    ∃ j, (run hs).2 = .ok j := by
-  have h := run_spec hs hL
-  unfold noWrap at hw
-  rcases hr : run hs with ⟨tr, res⟩
-  rw [hr] at h hw
-  cases res with
-  | ok j => exact ⟨j, rfl⟩
-  | error e =>
-    cases e with
-    | panic i => simp at hw
-    | _ => simp [PostL] at h
-
-theorem onion_of_noWrap (hs : List Script) (hL : hs.length ≤ 63) (hw : noWrap hs = true) :
-    onionOK hs.length (run hs).1 = true := by
-  have h := run_spec hs hL
-  obtain ⟨j, hj⟩ := run_ok_of_noWrap hs hL hw
-  rcases hr : run hs with ⟨tr, res⟩
-  rw [hr] at h hj
-  simp only at hj
-  subst hj
-  simp only [PostL] at h
-  obtain ⟨m', hrun, hst, _, hloL, _⟩ := h
-  simp only [onionOK, hrun, hst]
-  simp [Mon.init, hloL]
-
-theorem noWrap_of_work (hs : List Script) (hL : hs.length ≤ 63) (hB : 63 + (work hs : Int) ≤ 127) :
-    noWrap hs = true := by
-  have h := run_spec hs hL
-  unfold noWrap
-  rcases hr : run hs with ⟨tr, res⟩
-  rw [hr] at h
-  cases res with
-  | ok j => rfl
-  | error e =>
-    cases e with
-    | panic i => simp only [PostL] at h; omega
-    | _ => simp [PostL] at h
-
-theorem run_never_out_of_fuel (hs : List Script) (hL : hs.length ≤ 63) : (run hs).2 ≠ .error .fuel := by
+theorem run_ok (hs : List Script) (hL : hs.length ≤ 63) :
+    ∃ j, (run hs).2 = .ok j ∧ (hs.length : Int) ≤ j ∧ j ≤ 127 := by
   have h := run_spec hs hL
   rcases hr : run hs with ⟨tr, res⟩
   rw [hr] at h
-  intro hc
-  simp only at hc
-  subst hc
-  simp [PostL] at h
+  cases res with
+  | ok j =>
+    simp only [PostL] at h
+    obtain ⟨_, _, _, _, _, h5, h6⟩ := h
+    exact ⟨j, rfl, h5, h6⟩
+  | error e => simp [PostL] at h
 
-theorem work_le (hs : List Script) (c : Nat) (h : ∀ sc ∈ hs, nexts sc ≤ c) : work hs ≤ (c + 1) * hs.length := by
-  induction hs with
-  | nil => simp [work]
-  | cons sc t ih =>
-    have h1 := h sc (List.mem_cons_self ..)
-    have h2 := ih (fun s hsm => h s (List.mem_cons_of_mem _ hsm))
-    simp only [work, List.length_cons]
-    rw [Nat.mul_add]
-    omega
+theorem run_onion (hs : List Script) (hL : hs.length ≤ 63) : onionOK hs.length (run hs).1 = true := by
+  have h := run_spec hs hL
+  rcases hr : run hs with ⟨tr, res⟩
+  rw [hr] at h
+  cases res with
+  | error e => simp [PostL] at h
+  | ok j =>
+    simp only [PostL] at h
+    obtain ⟨m', hrun, hst, _, hloL, _⟩ := h
+    simp only [onionOK, hrun, hst]
+    simp [Mon.init, hloL]
 
 /-! ### what monitor acceptance means, declaratively -/
 
